@@ -74,17 +74,17 @@ func (c *Ctx) N(quick, thorough int) int {
 // shard.
 func (c *Ctx) Mine(i int) bool { return i%c.NShards == c.Shard }
 
-func (c *Ctx) Eval()                     { c.sum.Evals++ }
-func (c *Ctx) Evals(n int64)             { c.sum.Evals += n }
-func (c *Ctx) Count(name string)         { c.sum.Counters[name]++ }
-func (c *Ctx) Add(name string, n int64)  { c.sum.Counters[name] += n }
-func (c *Ctx) Get(name string) int64     { return c.sum.Counters[name] }
+func (c *Ctx) Eval()                        { c.sum.Evals++ }
+func (c *Ctx) Evals(n int64)                { c.sum.Evals += n }
+func (c *Ctx) Count(name string)            { c.sum.Counters[name]++ }
+func (c *Ctx) Add(name string, n int64)     { c.sum.Counters[name] += n }
+func (c *Ctx) Get(name string) int64        { return c.sum.Counters[name] }
 func (c *Ctx) Floor(name string, min int64) { c.sum.Floors[name] = min }
-func (c *Ctx) Extra(name string, v any)  { c.sum.Extras[name] = v }
-func (c *Ctx) Rule(s string)             { c.sum.Rule = s }
-func (c *Ctx) Exhaustive(b bool)         { c.sum.Exhaustive = b }
-func (c *Ctx) Assume(s ...string)        { c.sum.Assumptions = append(c.sum.Assumptions, s...) }
-func (c *Ctx) Inconclusive(why string)   { c.sum.Inconclusive = append(c.sum.Inconclusive, why) }
+func (c *Ctx) Extra(name string, v any)     { c.sum.Extras[name] = v }
+func (c *Ctx) Rule(s string)                { c.sum.Rule = s }
+func (c *Ctx) Exhaustive(b bool)            { c.sum.Exhaustive = b }
+func (c *Ctx) Assume(s ...string)           { c.sum.Assumptions = append(c.sum.Assumptions, s...) }
+func (c *Ctx) Inconclusive(why string)      { c.sum.Inconclusive = append(c.sum.Inconclusive, why) }
 
 // Sig records the class signature of a non-trivial case; the number of
 // distinct signatures is what evidence reports as distinct_nontrivial.
